@@ -7,7 +7,7 @@ from labrea.runtime import Request, Runtime
 from engine.api import harness
 from engine.hutil import note, untraced
 
-N_OPS = 10
+N_OPS = 11
 OPS = {
     0: "enter a fresh runtime derived from the current one, overriding RA (handle(type, handler))",
     1: "enter a fresh runtime derived from the current one, overriding RA and RB (handle(mapping))",
@@ -19,6 +19,7 @@ OPS = {
     7: "register a default handler for RC now",
     8: "replace the default handler of RA now",
     9: "enter a bare Runtime({RB: handler}) that was not derived from anything",
+    10: "enter a runtime whose RA handler itself raises KeyError (a dict-backed handler asked for a missing key)",
 }
 
 
@@ -125,6 +126,11 @@ def _run(ops, has_rt):
         elif op == 9:
             r = Runtime({RB: _tagger(tag + "B")})
             r.__enter__(); stack.append((r, {RB: tag + "B"}))
+        elif op == 10:
+            m = dict(cur_map()); m[RA] = "raised KeyError"
+            table = {}
+            r = rt.handle(RA, lambda request: table["missing"])
+            r.__enter__(); stack.append((r, m))
         if not check("after op %d (%s)" % (n, op)):
             return 0, trace
         # identity: the current runtime is the innermost entered object (or the base)
